@@ -245,4 +245,16 @@ ReportsConsistent ==
         IN /\ Cardinality({x \in ds : v[x[1]].d[x[2]].f = 1}) <= Cardinality(Media)
            /\ \A x, y \in ds : (x # y /\ v[x[1]].d[x[2]].v # 0) => v[x[1]].d[x[2]].v # v[y[1]].d[y[2]].v
 TypeOK == /\ at \in [Elems -> 0..2] /\ pos \in Elems \cup {0} /\ inited \subseteq Elems
+\* the state without its history (see Reservations!CoreView); the reports (Status, Size, Reissue) change nothing but
+\* the history and the kept request, so the unbounded run leaves them out
+CoreView == <<at, src, byop, ieopen, prevent, pos, inited>>
+NextCore == \/ \E s \in Elems, d \in Elems, inv \in {0, 1} : Move(s, d, inv)
+            \/ \E s \in Elems, d1 \in Elems, d2 \in Elems : Exchange(s, d1, d2)
+            \/ \E d \in Elems, inv \in {0, 1} : Position(d, inv)
+            \/ InitAll
+            \/ \E st \in {0, IE, S1, S2}, n \in {1, 2}, r \in {0, 1}, f \in {0, 1} : InitRange(st, n, r, f)
+            \/ \E c \in {0, 1} : OpenClose(c) \/ Prevent(c)
+            \/ \E m \in Media : Insert(m)
+            \/ Remove \/ Door
+SpecCore == Init /\ [][NextCore]_vars
 =============================================================================
